@@ -198,6 +198,37 @@ class Driver:
         if self.started:
             self.check_state(self.env.state, f'after set_state_representation({name})')
 
+    def op_inner(self, kind, i):
+        """the wrapped inner environment is public (`env.outer_env.inner_env`) and may be driven directly -- by the user, or by another
+        adapter wrapped around the same inner environment; the adapter's reads are views of it and must follow"""
+        self.nops += 1
+        inner = self.env.outer_env.inner_env
+        if kind == 'second_adapter':
+            other = GymEnvironment(OuterEnv(inner, observation_representation=make_observation_representation('default', inner.observation_space)))
+            if not self.started:
+                other.reset()
+                self.shadow_reset()
+            else:
+                i %= len(self.action_names)
+                _, r, done, _ = other.step(i)
+                r2, t2 = self.shadow_step(i)
+                if float(r) != float(r2) or bool(done) != bool(t2):
+                    self.fail(f'a second adapter around the same inner environment: step({i}) returned ({r}, {done}), twin ({r2}, {t2})', 'adapter_action')
+        elif kind == 'reset' or not self.started:
+            inner.reset()
+            self.shadow_reset()
+        else:
+            i %= len(self.action_names)
+            r, t = inner.step(objs.action(self.action_names[i]))
+            r2, t2 = self.shadow_step(i)
+            if float(r) != float(r2) or bool(t) != bool(t2):
+                self.fail(f'inner step({self.action_names[i]}) returned ({r}, {t}), twin ({r2}, {t2})', 'adapter_action')
+        self.inner_ops = getattr(self, 'inner_ops', 0) + 1
+        self.last_obs = None
+        self.check_obs(self.env.observation, f'read after the inner environment was driven directly ({kind})')
+        if self.state_name is not None:
+            self.check_state(self.env.state, f'read after the inner environment was driven directly ({kind})')
+
     def op_sibling(self, kind, i):
         """another instance of the same id / configuration is created, seeded, reset, stepped or reconfigured"""
         self.nops += 1
@@ -276,6 +307,8 @@ class Driver:
             cl.append('state_wrapper')
         if self.action_names != ACTIONS[: len(self.action_names)]:
             cl.append('reordered_actions')
+        if getattr(self, 'inner_ops', 0):
+            cl.append('inner_driven_directly')
         if self.sibling_ops and self.obs_changes:
             cl.append('sibling_touched' + ('_registry' if self.via_registry else ''))
         if self.predecessor and self.switches:
@@ -325,6 +358,11 @@ def machine(tier, ctx, last):
             self.op('set_state_rep', name)
 
         @built
+        @rule(kind=st.sampled_from(['step', 'step', 'reset', 'second_adapter']), i=st.integers(0, 7))
+        def inner(self, kind, i):
+            self.op('inner', kind, i)
+
+        @built
         @rule(kind=st.sampled_from(['seed', 'reset', 'step', 'step', 'rep']), i=st.integers(0, 7))
         def sibling(self, kind, i):
             self.op('sibling', kind, i)
@@ -357,13 +395,13 @@ def enum_all(tier, shard, nshards):
             if i % nshards == shard:
                 yield [['init', {'base': n, 'mods': {}}, 7 + i, via], ['reset'], ['step', 0], ['step', 2], ['read'], ['set_obs_rep', 'compact'], ['step', 1], ['step', 5],
                        ['set_state_rep', 'no-overlap'], ['wrapped_step', 0], ['wrapped_reset'], ['wrapped_step', 3], ['set_obs_rep', 'default'], ['step', 4], ['read'], ['reset'], ['step', 0],
-                       ['sibling', 'seed', 3], ['sibling', 'step', 1], ['step', 2], ['sibling', 'reset', 0], ['step', 0], ['sibling', 'rep', 2], ['read'], ['step', 1]]
+                       ['inner', 'step', 1], ['read'], ['inner', 'second_adapter', 2], ['inner', 'reset', 0], ['step', 3], ['sibling', 'seed', 3], ['sibling', 'step', 1], ['step', 2], ['sibling', 'reset', 0], ['step', 0], ['sibling', 'rep', 2], ['read'], ['step', 1]]
 
 
 CHECKS = [
     Check('adapter_machine', oracle, machine=machine, examples={'quick': 60, 'thorough': 200}, steps={'quick': 30, 'thorough': 50}, shards={'quick': 8, 'thorough': 16},
-          rule='rule-based machine (reset, step(i), reads, set_state/observation_representation, state-wrapper reset/step, a sibling instance of the same id touched in between; an environment of the base configuration used earlier when the spaces were extended) on shipped and perturbed configurations (re-ordered action lists), direct and via registered ids, vs. a functionally driven twin',
-          required=['observation_changed', 'representation_switch', 'state_wrapper', 'registry', 'direct', 'reordered_actions', 'sibling_touched_registry', 'predecessor_with_smaller_spaces']),
+          rule='rule-based machine (reset, step(i), reads, set_state/observation_representation, state-wrapper reset/step, a sibling instance of the same id touched in between; the wrapped inner environment driven directly or through a second adapter; an environment of the base configuration used earlier when the spaces were extended) on shipped and perturbed configurations (re-ordered action lists), direct and via registered ids, vs. a functionally driven twin',
+          required=['observation_changed', 'representation_switch', 'state_wrapper', 'registry', 'direct', 'reordered_actions', 'sibling_touched_registry', 'predecessor_with_smaller_spaces', 'inner_driven_directly']),
     Check('all_shipped_scripted', oracle, enumerate=enum_all, shards={'quick': 8, 'thorough': 8},
           rule='all 22 shipped configurations directly and all 21 registered ids through the registry x a fixed 24-op script covering every adapter operation, including a second live instance of the same id being seeded, stepped, reset and reconfigured in between'),
 ]
